@@ -380,7 +380,7 @@ class Gen:
             opts += ["sum", "sum"]
             if strict_any:
                 opts += ["subtotal"]
-        opts += ["countb", "peek", "get", "put"]
+        opts += ["countb", "peek", "get", "put", "pop", "pushpair", "pushpair"]
         if strict_any:
             opts += ["every", "track"]
         c = r.choice(opts)
@@ -390,6 +390,20 @@ class Gen:
         if c == "track":
             val = r.choice([self.num, self.text])(2)
             return L.fn("track", self.href(r.choice(strict_any)), val, quals=[self.fresh("tr")])
+        if c == "pop":
+            # pop() takes the last entry off the stack (several components may feed and drain one stack)
+            if r.random() < 0.5:
+                return L.assign(L.var(self.fresh("pp")), L.fn("pop", L.term(r.choice(["stk1", "stk1", "stk1", "stk2"]))))
+            cond = self.boolean(2)
+            if cond["k"] in ("term",):
+                cond = self.href_any()
+            return L.when(cond, L.fn("pop", L.term(r.choice(["stk1", "stk1", "stk1", "stk2"]))))
+        if c == "pushpair":
+            # a distinct push next to other pushes of few distinct values: what 'distinct' means is decided by the stack itself
+            tcols = self.cols({"txt", "txtE"})
+            val = self.href(r.choice(tcols)) if (tcols and r.random() < 0.5) else L.term(r.choice(["a", "b", "ab", "B"]))
+            return L.fn(r.choice(["push_distinct", "push_distinct", "push"]), L.term(r.choice(["stk1", "stk1", "stk1", "stk2"])), val,
+                        quals=(["distinct"] if r.random() < 0.4 else []))
         if c == "peek":
             return L.assign(L.var(self.fresh("pk")), L.fn("peek", L.term(r.choice(["stk1", "stk2"])), L.term(r.choice([0, 1, 3]))))
         if c == "get":
@@ -645,6 +659,15 @@ class Gen:
             if r.random() < 0.5:
                 self.meta.append(L.meta_field("owner", r.choice(["team", "me too"])))
         comps = [self.component() for _ in range(n)]
+        if "stateful" in self.groups and r.random() < 0.2:
+            # one stack fed and drained by several components: 'distinct' and pop() are about the stack as it is NOW
+            tcols = self.cols({"txt", "txtE"})
+            v1 = self.href(r.choice(tcols)) if tcols else L.term("a")
+            block = [L.fn("push_distinct", L.term("stk1"), v1),
+                     L.fn("push", L.term("stk1"), L.term(r.choice(["a", "b", "ab", "B"]))),
+                     L.when(L.eq(L.fn("mod", L.fn("line_number"), L.term(2)), L.term(r.choice([0, 1]))), L.fn("pop", L.term("stk1")))]
+            r.shuffle(block)
+            comps += block[: r.choice([2, 3, 3])]
         if "rewrite" in self.groups and not self.used_onmatch:
             # replace()/append()/collect() come after the typed components (a replaced cell need not keep its column's type) and
             # are followed by readers that take any value; no look-ahead may run them early
